@@ -774,20 +774,22 @@ def run(ctx):
         "rule": "E/S lines: expression or string-literal source text parsed, printed and re-parsed by the real crates and by the model (all 14x14 operator pairs in both nestings + unary combinations in explicit and parser-minimal rendering; random trees of depth<=5 over 14 binary and 2 unary operators, ids, ints incl. 2147483647 and -2147483648, rendered with explicit, redundant or minimal parentheses; string tokens with every valid escape, multi-byte and comment-like content; malformed token streams); M lines: whole modules (every .sam file of /repo/tests and /repo/std, operator-swap mutants of them, 4 module templates with generated expressions in let / tuple / call / if / match / lambda / method-chain positions) re-parsed after formatting at widths 20..200. non-trivial = distinct original tree with at least two nested operators (E) or a module that parsed and round-tripped (M)",
         "traces_validated_against_impl": st["expr_lines"] + st["str_lines"] if model_ok else 0,
         "operator_histogram": r.hist, "stats": st,
-        "partial_theorems": {
-                             "roundtrip_expr_noShortcut": "NoShortcut e (no node `x op (y op z)` with op in + * && || printed without parentheses; the only remaining deviation, open finding C08-F5 pinned by a golden test)",
+        "partial_theorems": {"roundtrip_expr_noShortcut": "NoShortcut e (no node `x op (y op z)` with op in + * && || printed without parentheses; the only remaining tree deviation, open finding C08-F5 pinned by a golden test) - exact tree equality",
                              "roundtrip_int": "0 <= i < 2^31 or i = -2^31 (all values the parser produces)"},
-        "full_strength_theorems": ["roundtrip_str (every lexed string literal)", "paren_insensitive", "parseFuel_stable", "former_witnesses_roundtrip", "member_name_before_lt"],
-        "pending": ["a total statement for shortcut nodes: parseE (printE e) = some (regroup e) and evaluation-equivalence of regroup (C08-F5 is semantically harmless)",
-                    "width_irrelevant (C09 layout theorem)",
-                    "inside of call arguments / tuples / blocks / if-else / match / lambda parameter lists (opaque units in the model; covered by the reparse oracle)",
-                    "declarations, patterns, types, statements, comments (reparse oracle only)"]})
+        "full_strength_theorems": ["roundtrip_expr_total (every expression: parseE (printE e) = some (regroup e))",
+                                   "format_preserves_meaning / eval_regroup (every expression, every interpretation: same value/trap and event order)",
+                                   "roundtrip_str (every lexed string literal)", "paren_insensitive", "parseFuel_stable",
+                                   "roundtrip_expr_in_context", "former_witnesses_roundtrip", "member_name_before_lt"],
+        "legacy": "Model/Fmt.lean (round-2 fragment with opaque call arguments / if / match; theorems roundtrip_expr_partial, paren_insensitive used by C09b / C13b) is executed next to the full model on every line in its fragment (stats legacy_model_*)",
+        "pending": ["width_irrelevant (C09 layout theorem)",
+                    "still opaque: identifiers/literals, member names with their explicit type arguments, match patterns, lambda parameter lists; blocks with statements, `else if` chains, if-let guards",
+                    "declarations, types, statements, comments (reparse oracle only)"]})
     ctx.assumptions += ["valid UTF-8 input", "int literal tokens in i32 range (out-of-range literals are C06)",
                         "token-level statement: the layout engine only inserts blanks/line breaks between tokens (C09); checked empirically here at widths 5..200"]
     return ctx.finish(res, trusted=common.TRUSTED_COMMON + [
-        "hand-written model Model/Fmt.lean (printer arms literal/id/tuple/block, FieldAccess/MethodAccess/Call chains, Unary, Binary incl. ends_with_member_name, IfElse/Match as opaque units, Lambda; parser parse_expression, parse_disjunction..parse_factor, parse_unary_expression, parse_function_call_or_field_access incl. the `<`-after-member-name rule, parse_base_expression with nested-expression unwrapping and lambdas; lex_str_lit_opt, unescape_quotes, process_raw_token)",
-        "driver-side character lexer and token grouping of the fragment (Driver/C08.lean lexWords/group: call arguments, member names, if/match/lambda-parameter/block units in fixed shapes) and the tree dump of harness/src/bin/c08.rs (erases locations, comments, resolved module references, field/tag orders; imports normalised by merge+sort)",
-        "not modelled (reparse oracle only): declarations, patterns, types, statements, the inside of the opaque units, explicit type arguments, comments"])
+        "hand-written models Model/FmtFull.lean (printer arms literal/id, tuple, block with final expression, FieldAccess/MethodAccess/Call chains with argument lists, Unary, Binary incl. ends_with_member_name, IfElse with block branches, Match with cases, Lambda; parser parse_expression/parse_match/parse_if_else, parse_disjunction..parse_factor, parse_unary_expression, parse_function_call_or_field_access incl. the `<`-after-member-name rule and argument lists, parse_base_expression with nested-expression unwrapping, tuples, blocks and lambdas), Model/FmtEval.lean (evaluation semantics) and Model/Fmt.lean (tables; lex_str_lit_opt, unescape_quotes, process_raw_token)",
+        "driver-side character lexer and token grouping of the fragment (Driver/C08.lean lexWords/group: member names with optional `<T>`, match patterns `U(v) ->`, `U ->`, `_ ->`, lambda parameter lists as single units) and the tree dump of harness/src/bin/c08.rs (erases locations, comments, resolved module references, field/tag orders; imports normalised by merge+sort)",
+        "not modelled (reparse oracle only): declarations, patterns, types, statements inside blocks, else-if chains, if-let, comments"])
 
 
 def replay(ctx, path):
